@@ -123,8 +123,11 @@ func main() {
 			if sc.maxExecT > 0 && hc.Thorough() {
 				maxExec = sc.maxExecT
 			}
+			if v := os.Getenv("VERIF_MAXEXEC"); v != "" {
+				fmt.Sscan(v, &maxExec) // debugging aid
+			}
 			verifrt.HashStates = *prop != "C10"
-			ex := &verifrt.Explorer{Bound: bound, MaxExec: maxExec, Stop: w.Expired, Prune: *prop != "C10", CaseCost: sc.caseCost,
+			ex := &verifrt.Explorer{Bound: bound, MaxExec: maxExec, Stop: w.Expired, Prune: *prop != "C10", CaseCost: sc.caseCost, LevelOrder: *prop == "C10",
 				Prog: func() {
 					res.reset()
 					if *prop == "C10" {
@@ -192,10 +195,10 @@ func main() {
 }
 
 var rules = map[string]string{
-	"C06": "stateless DFS over schedules of the real inputLoop/mainLoop/shutdown code under a controlled scheduler, preemption bound 2 (thorough 3): shutdown op in {Fini, Suspend} x event-queue level x chunks offered x consumer polling or stopped x resize pending x tty read error at the i-th read; Suspend/Resume cycles with input and resize after each Resume; concurrent poster and drawer. A deterministic prologue fills the queues to the stated levels (real capacities 10/10), branching starts when the shutdown caller is spawned. Oracle: the shutdown caller finishes in every execution (no deadlock with it parked); after Fini PollEvent never parks, ChannelEvents channels are closed, inputLoop and mainLoop have exited, a second Fini returns, later Screen calls do not panic; after Suspend+Resume input and resize are delivered again. distinct_nontrivial = distinct (scenario, parameter, observed outcome) classes",
+	"C06": "stateless DFS over schedules of the real inputLoop/mainLoop/shutdown code under a controlled scheduler, preemption bound 2 (thorough 3): shutdown op in {Fini, Suspend} x event-queue level x chunks offered x consumer polling or stopped x resize pending x tty read error at the i-th read; Suspend/Resume cycles with input and resize after each Resume; Fini of a suspended screen; concurrent poster and drawer. A deterministic prologue fills the queues to the stated levels (real capacities 10/10), branching starts when the shutdown caller is spawned. Oracle: the shutdown caller finishes in every execution (no deadlock with it parked); after Fini PollEvent never parks, ChannelEvents channels are closed, inputLoop and mainLoop have exited, a second Fini returns, later Screen calls do not panic; after Suspend+Resume input and resize are delivered again. distinct_nontrivial = distinct (scenario, parameter, observed outcome) classes",
 	"C04": "interleaving part of C04: the shutdown family of C06 (Fini or Suspend x queue levels x pending resize x read errors x concurrent poster/drawer) explored under the controlled scheduler; at the moment the shutdown call returns everything written so far is replayed into the reference terminal, which must be restored (main screen, cursor visible, SGR default, keypad and DEC private modes off, title stack balanced) and nothing may have been written after the tty was stopped",
 	"C02": "interleaving part of C02: one key/escape-sequence stream delivered through Tty.Read in 5 partitions (sequences split inside and between reads) while the application is not polling, so that several reads are in flight between inputLoop, the key channel and mainLoop; stateless DFS over schedules, preemption bound 2 (thorough 3); the delivered key events must be those of the stream delivered in one read, in order (executions in which the virtual escape timer fired inside a split sequence are not judged)",
 	"C11": "interleaving part of C11: one UTF-8 text stream (1-, 2- and 3-byte characters) delivered through Tty.Read in 4 partitions (characters split across reads) while the application is not polling; stateless DFS over schedules, preemption bound 2 (thorough 3); the delivered runes must be the typed text in order",
-	"C05": "stateless DFS over schedules (preemption bound 2, thorough 3) of a feeder thread injecting sequence-numbered key chunks, a resize notifier, two posters (PostEvent of numbered interrupts, recording the return value), and a consumer (PollEvent, or ChannelEvents with quit), with the real inputLoop/mainLoop; slow-consumer variants start the consumer only after both queues are full (deterministic prologue). Oracle at quiescence: input-derived key events are exactly the injected sequence in order; each poster's delivered events are in posting order; PostEvent returned nil iff its event was delivered exactly once; HasPendingEvent true implies the next PollEvent does not park; ChannelEvents forwards an in-order subsequence and closes its channel; When() lies between the cause's arrival and delivery (virtual clock). distinct_nontrivial = distinct (scenario, parameter, delivered event order) outcomes",
-	"C10": "every unordered pair of Screen methods from the API alphabet run on two threads against a live terminfo screen (with input traffic and a resize notification; UTF-8 locale, and - for pairs with a drawing or charset-dependent call - a locale whose encoder is stateful, HZ-GB2312) and, for SimulationScreen, its own alphabet; every schedule with at most 1 preemption (thorough 2) is executed in a -race build whose scheduler hand-offs are hidden from ThreadSanitizer (runtime.RaceDisable), so each schedule is also checked by the happens-before race detector; race reports are keyed by the pair of tcell functions at the two access sites. Also checked: no runtime fault or panic, and every Show() reaches the tty as one contiguous, well-formed block. distinct_nontrivial = distinct (pair, outcome) classes",
+	"C05": "stateless DFS over schedules (preemption bound 2, thorough 3) of a feeder thread injecting sequence-numbered key chunks, a resize notifier, two posters (PostEvent of numbered interrupts, recording the return value), and a consumer (PollEvent, or ChannelEvents with quit), with the real inputLoop/mainLoop; slow-consumer variants start the consumer only after both queues are full (deterministic prologue); streams mixing keys, mouse reports, paste brackets and focus reports; ChannelEvents with a full application channel at quit/Fini. Oracle at quiescence: input-derived key events are exactly the injected sequence in order; each poster's delivered events are in posting order; PostEvent returned nil iff its event was delivered exactly once; HasPendingEvent true implies the next PollEvent does not park; ChannelEvents forwards an in-order subsequence and closes its channel; When() lies between the cause's arrival and delivery (virtual clock). distinct_nontrivial = distinct (scenario, parameter, delivered event order) outcomes",
+	"C10": "every unordered pair of Screen methods from the API alphabet run on two threads against a live terminfo screen (with input traffic and a resize notification; UTF-8 locale, and - for pairs with a drawing or charset-dependent call - a locale whose encoder is stateful, HZ-GB2312) and, for SimulationScreen, its own alphabet; schedules with at most 1 preemption (thorough 2) are executed breadth-first (canonical schedule, then every single departure from it, then further ones; per-program cap) - each pair both with input traffic and without (quiet: only the two callers run, every preemption point of either call is reached) - in a -race build whose scheduler hand-offs are hidden from ThreadSanitizer (runtime.RaceDisable), so each schedule is also checked by the happens-before race detector; race reports are keyed by the pair of tcell functions at the two access sites. Also checked: no runtime fault or panic, and every Show() reaches the tty as one contiguous, well-formed block. distinct_nontrivial = distinct (pair, outcome) classes",
 }
